@@ -1,28 +1,34 @@
 /-
-  C10, part 4 — low-latency traffic.
+  C10, part 4 — low-latency (mixed) traffic under `NoLLPOverflow`.
 
-  Full statement (NOT proved):  decap_encap_llp — for every packet sequence (any low-latency marking)
-  and frame length satisfying `NoLLPOverflow` (each low-latency PTDP, with its continuation byte, fits
-  in the free space of the frame it is inserted into) the consumer loop returns every packet whose
-  last byte has been emitted exactly once, byte-identical, low-latency ones flagged and ahead of the
-  normal data of their frame, normal ones in order.  Without `NoLLPOverflow` the statement is false
-  on the real code (known finding K3).
+  `NoLLPOverflow pkts L sid` (decidable; computed along the encapsulation fold): whenever
+  `datapkts_to_ptfr` reaches a low-latency PTDP, its 6 + len bytes plus the 1-byte continuation marker
+  fit in the free space of the frame under construction.  Without it the statement is false on the
+  real code (known finding K3).
 
-  What is proved here (`_partial`) is the statement ONE FRAME / ONE INSERTION at a time:
-  the frame layout  enc p₁ ++ [0xFF] ++ … ++ enc pₙ ++ [0x00] ++ normal data, offset = length of that
-  prefix (`LlpLayout`), is preserved by a non-overflowing low-latency insertion, and a frame with that
-  layout decapsulates to p₁ … pₙ flagged low-latency, in front of exactly what a frame without
-  low-latency data would give for (carried remainder ++ normal data).  Missing: the invariant over
-  the whole `datapkts_to_ptfr` fold for mixed traffic (which frame each normal byte lands in once
-  insertions shift it) and its composition with the consumer loop.  The correspondence check and the
-  oracle cover the whole statement on generated sequences (both with and without overflow).
+  For EVERY packet sequence with ANY low-latency marking that satisfies `NoLLPOverflow`, every frame
+  length 1..2047:
+  * `llp_encap_invariant` — the encapsulator terminates and its state is `MixInv`: frame k is
+        llpBytes ll_k ++ S[c_k, c_{k+1})      (`mixFrame`; S = stream of the normal PTDPs)
+    = LLP₁ FF LLP₂ FF … LLPₙ 00 normal…, LLP flag = (ll_k ≠ []), offset field = length of the low-latency
+    prefix if there is one, else the position of the first normal PTDP header beginning in the frame (0x7FF if
+    none); the cuts are c_{k+1} = c_k + (L − |prefix_k|); the low-latency PTDPs of the frames, read in insertion
+    order (`llpOrder`), are exactly the low-latency packets of the input, each ONE complete PTDP, each once.
+  * `llp_frame_layout` — what `mixFrame` means, field by field.
+  * `decap_encap_llp` — feeding the emitted frames (as `PTFR.pack` returns them) to the documented consumer
+    loop (first frame `get_aligned_payload(True, b"")`, then `(False, leftover)`) raises nothing and returns,
+    after FIRST/MIDDLE/LAST reassembly, frame by frame: the low-latency packets the frame holds, flagged,
+    AHEAD of the normal packets whose last byte lies in that frame (`mixPkts`); hence
+    every normal packet whose last byte has been emitted exactly once, byte-identical, in the original
+    order, unflagged; every low-latency packet of an emitted frame exactly once, byte-identical, flagged.
+  * `llp_insert_layout`, `llp_frame_decode` — the one-insertion / one-frame facts the above is built on.
 -/
-import Acra.Lemmas.Chapter7Llp
+import Acra.Lemmas.Chapter7Llp4
 namespace Acra.Props.C10
 open Acra.Py Acra.Model.Chapter7 Acra.Lemmas.Chapter7 Acra.Gen.Chapter7
 
 /-- one low-latency insertion that fits keeps the frame layout (and returns no remainder) -/
-theorem llp_insert_layout_partial (s : PTFR.State) (llps : List PTDP.State) (N : Bytes) (p : PTDP.State)
+theorem llp_insert_layout (s : PTFR.State) (llps : List PTDP.State) (N : Bytes) (p : PTDP.State)
     (h : LlpLayout s llps N) (hfit : (encB p).length + 1 + s.payload.length ≤ s.length) :
     (PTFR.addPayload s (encB p) true).2 = [] ∧
     (PTFR.addPayload s (encB p) true).1.length = s.length ∧
@@ -35,12 +41,88 @@ example (L : Nat) : LlpLayout (newPtfr L 1) [] [] := ⟨rfl, rfl, fun h => absur
 /-- a frame with the low-latency layout decapsulates to its low-latency PTDPs, flagged, ahead of the
     normal data; the normal data is parsed with the carried remainder in front, as usual.
     `first = true → r = []` is the documented consumer loop (first frame: `remainder = b""`). -/
-theorem llp_frame_decode_partial (self : PTFR.State) (llps : List PTDP.State) (N : Bytes) (hne : llps ≠ [])
+theorem llp_frame_decode (self : PTFR.State) (llps : List PTDP.State) (N : Bytes) (hne : llps ≠ [])
     (h : LlpLayout self llps N) (hwf : ∀ p ∈ llps, PTDP_WF p) (first : Bool) (r : Bytes)
     (hjump : first = true → r = []) :
     (getAlignedPayload self first (some r)).items =
       llps.map (fun p => Item.pkt (asLlp p)) ++ (parseB (r ++ N)).1.map Item.pkt ++ [lastItem (parseB (r ++ N))] ∧
     (getAlignedPayload self first (some r)).raised = none :=
   gap_llp_frame self llps N hne h hwf first r hjump
+
+/-- a mixed sequence satisfying `NoLLPOverflow`: normal, low-latency on a partly filled frame, a normal
+    packet that overflows the frame, two low-latency packets into the same frame, normal -/
+example : NoLLPOverflow
+    [([1, 2, 3], false), ([9, 9], true), (List.replicate 40 7, false), ([], true), ([5], true), ([4, 4], false)]
+    40 1 := by decide +kernel
+
+/-- … and the same sequence violates it for a frame length that leaves no room for the insertion -/
+example : ¬ NoLLPOverflow
+    [([1, 2, 3], false), ([9, 9], true), (List.replicate 40 7, false), ([], true), ([5], true), ([4, 4], false)]
+    24 1 := by decide +kernel
+
+/-- the encapsulator on mixed traffic: terminates; frame layout, offsets and cuts (`MixInv`); every
+    low-latency packet is one COMPLETE PTDP shorter than the frame, inserted exactly once -/
+theorem llp_encap_invariant (pkts : List (Bytes × Bool)) (L sid : Nat) (hL : 0 < L) (hL2 : L ≤ 2047) (hs : sid < 16)
+    (hno : NoLLPOverflow pkts L sid) :
+    ∃ cur out lls ll, datapktsToPtfr pkts L sid = .ok (cur, out) ∧
+      MixInv L sid (encs (normalPkts pkts)) lls ll cur out ∧
+      llpOrder lls ll = (llpPkts pkts).map llpPtdp ∧
+      (∀ b ∈ llpPkts pkts, b.length + 7 ≤ L) := by
+  obtain ⟨cur, out, lls, ll, h, inv, hord, hsz, _⟩ := decap_encap_mix pkts L sid hL hL2 hs hno
+  exact ⟨cur, out, lls, ll, h, inv, hord, hsz⟩
+
+/-- the frame `MixInv` speaks of, field by field: low-latency PTDPs first (most recently inserted first, each
+    followed by 0xFF, the last by 0x00), then `cap L ll = L − |prefix|` bytes of the normal stream from `c`;
+    LLP flag iff there is a low-latency PTDP; offset = |prefix| then, else the first normal PTDP start in the frame -/
+theorem llp_frame_layout (L sid : Nat) (S : Bytes) (st : List Nat) (c : Nat) (ll : List PTDP.State) :
+    LlpLayout (mixFrame L sid S st c ll) ll (slice S c (c + cap L ll)) ∧
+    (mixFrame L sid S st c ll).llp = !ll.isEmpty ∧
+    (mixFrame L sid S st c ll).payload = llpBytes ll ++ slice S c (c + (L - (llpBytes ll).length)) ∧
+    (ll ≠ [] → (mixFrame L sid S st c ll).ptdp_offset = (llpBytes ll).length) ∧
+    (ll = [] → (mixFrame L sid S st c ll).ptdp_offset = offAt st c (c + L)) ∧
+    (mixFrame L sid S st c ll).length = L ∧ (mixFrame L sid S st c ll).streamid = sid ∧
+    (mixFrame L sid S st c ll).version = 0 := by
+  have hoff : ll ≠ [] → (mixFrame L sid S st c ll).ptdp_offset = (llpBytes ll).length := by
+    intro hne
+    show (if ll.isEmpty then _ else (llpBytes ll).length) = _
+    cases ll with
+    | nil => exact absurd rfl hne
+    | cons q r => simp
+  refine ⟨⟨rfl, rfl, hoff⟩, rfl, rfl, hoff, ?_, rfl, rfl, rfl⟩
+  intro h; subst h; rfl
+
+/-- decap ∘ encap, low-latency traffic under `NoLLPOverflow` (see the file header) -/
+theorem decap_encap_llp (pkts : List (Bytes × Bool)) (L sid : Nat) (hL : 0 < L) (hL2 : L ≤ 2047) (hs : sid < 16)
+    (hno : NoLLPOverflow pkts L sid) :
+    ∃ cur out lls ll, datapktsToPtfr pkts L sid = .ok (cur, out) ∧
+      -- the frames are the mixed layout, the low-latency PTDPs in them are the input's, each once
+      out = mixFrames L sid (stream (normalPkts pkts)) (Acra.Spec.Ch7.startsAux 0 (encs (normalPkts pkts))) 0 lls ∧
+      llpOrder lls ll = (llpPkts pkts).map llpPtdp ∧
+      (∀ f ∈ out, (PTFR.pack f).2 = .ok (wire f) ∧ f.payload.length = L) ∧
+      -- the consumer loop raises nothing
+      (decap L (out.map wire)).2 = none ∧
+      -- frame by frame: the low-latency packets of the frame, flagged, then the normal packets it completes
+      reassemble (decap L (out.map wire)).1.ptdps = mixPkts L (normalPkts pkts) 0 lls ∧
+      -- normal packets: every one whose last byte has been emitted, once, identical, in order, unflagged
+      (reassemble (decap L (out.map wire)).1.ptdps).filter (fun q => !q.2) =
+        normal ((normalPkts pkts).take (pktDone (normalPkts pkts) (cutAfter L 0 lls))) ∧
+      -- low-latency packets: those of the emitted frames, once, identical, flagged
+      (reassemble (decap L (out.map wire)).1.ptdps).filter (fun q => q.2) =
+        lls.flatten.map (fun q => (q.payload, true)) := by
+  obtain ⟨cur, out, lls, ll, h, inv, hord, _, hpack, hdec, hasm⟩ := decap_encap_mix pkts L sid hL hL2 hs hno
+  refine ⟨cur, out, lls, ll, h, inv.out_eq, hord, hpack, by rw [hdec], by rw [hdec]; exact hasm, ?_, ?_⟩
+  · rw [hdec]; simp only; rw [hasm, mixPkts_normal, pktDone_zero]; rfl
+  · rw [hdec]; simp only; rw [hasm, mixPkts_llp]
+
+/-- the normal bytes emitted: the cuts add up to the frames minus their low-latency prefixes -/
+theorem llp_cut_total (L : Nat) (lls : List (List PTDP.State)) (c : Nat) (hfit : ∀ l ∈ lls, (llpBytes l).length ≤ L) :
+    cutAfter L c lls + (lls.map fun l => (llpBytes l).length).sum = c + lls.length * L := by
+  induction lls generalizing c with
+  | nil => simp [cutAfter]
+  | cons l r ih =>
+    have := ih (c + cap L l) (fun x hx => hfit x (by simp [hx]))
+    have hl := hfit l (by simp)
+    simp only [cutAfter, List.map_cons, List.sum_cons, List.length_cons, cap] at this ⊢
+    rw [Nat.add_mul]; omega
 
 end Acra.Props.C10
